@@ -431,8 +431,12 @@ func (sb *sandbox) wdListing() string {
 
 // symlinksLeavingWD counts the symbolic links inside the working directory
 // that, followed to the end, name a place outside it.
-func (sb *sandbox) symlinksLeavingWD() int {
-	n := 0
+func (sb *sandbox) symlinksLeavingWD() int { return len(sb.linksLeavingWD()) }
+
+// linksLeavingWD lists (relative to the working directory) the symbolic links
+// inside it that, followed to the end, name a place outside it.
+func (sb *sandbox) linksLeavingWD() []string {
+	var out []string
 	var walk func(p string, depth int)
 	walk = func(p string, depth int) {
 		ents, err := os.ReadDir(p)
@@ -443,7 +447,8 @@ func (sb *sandbox) symlinksLeavingWD() int {
 			q := filepath.Join(p, e.Name())
 			if e.Type()&os.ModeSymlink != 0 {
 				if r, ok := physical(p, []string{e.Name()}); ok && !within(sb.wd, r) {
-					n++
+					rel, _ := filepath.Rel(sb.wd, q)
+					out = append(out, rel)
 				}
 				continue
 			}
@@ -453,5 +458,5 @@ func (sb *sandbox) symlinksLeavingWD() int {
 		}
 	}
 	walk(sb.wd, 0)
-	return n
+	return out
 }
